@@ -274,16 +274,17 @@ def write_evidence(prop, tier, level, results, extra, violations, wall_s, seed):
         "assumptions": sorted({a for r in results for a in r["assumptions"]}),
         "wall_s": round(wall_s, 2), "violations": violations,
     }
-    os.makedirs(os.path.join(ROOT, "evidence"), exist_ok=True)
-    tmp = os.path.join(ROOT, "evidence", f".{prop}.json.tmp")
+    OUT = os.environ.get("VERIF_OUT", ROOT)  # VERIF_OUT: scratch output root for self-tests against a patched copy
+    os.makedirs(os.path.join(OUT, "evidence"), exist_ok=True)
+    tmp = os.path.join(OUT, "evidence", f".{prop}.json.tmp")
     with open(tmp, "w") as f:
         json.dump(ev, f, indent=1, default=str)
-    os.replace(tmp, os.path.join(ROOT, "evidence", f"{prop}.json"))
+    os.replace(tmp, os.path.join(OUT, "evidence", f"{prop}.json"))
     return ev
 
 
 def save_replay(prop, name, payload):
-    d = os.path.join(ROOT, "replays")
+    d = os.path.join(os.environ.get("VERIF_OUT", ROOT), "replays")
     os.makedirs(d, exist_ok=True)
     p = os.path.join(d, f"{prop}_{name}.json")
     with open(p, "w") as f:
